@@ -20,7 +20,7 @@
 (*   CalcClock    calculateLamportClock: db.Read per prev, max + 1         *)
 (*   Sign         dag.NewTransaction + transactionSigner.Sign (key store)  *)
 (*   ReadVerify   state.Add: db.Read { isPresent; verifiers }              *)
-(*   TakeTmu      state.treeMutex.Lock()                                   *)
+(*                then state.treeMutex.Lock() (queue tmuQ when it is held) *)
 (*   LockWrite    db.Write: bbolt write lock + function body (payload,     *)
 (*                jobs, graph.add incl. head / lc_high / tx_num, trees)    *)
 (*   Commit | Rollback, OnRollback (loadState), AfterCommit (unlockTrees,  *)
@@ -72,7 +72,7 @@ VARIABLES
     attr,      \* bytes made so far: id -> [prevs, lc, type, priv, sig, seen]
     disk,      \* committed bbolt content of the producing node
     mem,       \* lamportClockHigh (atomic)
-    lock, tmu, cmu,
+    lock, tmu, tmuQ, tmuQ, cmu,
     pc, call, wbuf, ncalls, fails,
     result,    \* id -> [why, tpl]: how the call returned ("ok" or the reason of the error) and the template it used
     delivered, \* (subscriber, id): receiver invoked
@@ -82,8 +82,8 @@ VARIABLES
     wire,      \* what a non-participant peer obtained: [t, pl]
     hist
 
-vars == <<attr, disk, mem, lock, tmu, cmu, pc, call, wbuf, ncalls, fails, result, delivered, gossiped, rp, reproc, nreproc, n2, rej2, wire, hist>>
-view == <<attr, disk, mem, lock, tmu, cmu, pc, call, wbuf, ncalls, fails, result, delivered, gossiped, rp, reproc, nreproc, n2, rej2, wire>>
+vars == <<attr, disk, mem, lock, tmu, tmuQ, tmuQ, cmu, pc, call, wbuf, ncalls, fails, result, delivered, gossiped, rp, reproc, nreproc, n2, rej2, wire, hist>>
+view == <<attr, disk, mem, lock, tmu, tmuQ, tmuQ, cmu, pc, call, wbuf, ncalls, fails, result, delivered, gossiped, rp, reproc, nreproc, n2, rej2, wire>>
 
 Log(e) == hist' = IF Hist THEN Append(hist, e) ELSE hist
 
@@ -96,7 +96,7 @@ Init ==
     /\ attr = IF Base THEN [x \in {"g"} |-> GAttr] ELSE <<>>
     /\ disk = IF Base THEN BaseDisk ELSE EmptyDisk
     /\ mem = [lcHigh |-> 0]
-    /\ lock = None /\ tmu = None /\ cmu = None
+    /\ lock = None /\ tmu = None /\ tmuQ = <<>> /\ cmu = None
     /\ pc = [p \in Procs |-> "idle"]
     /\ call = [p \in Procs |-> NoCall]
     /\ wbuf = [p \in Procs |-> EmptyDisk]
@@ -136,6 +136,7 @@ RetErr(p, why) ==
     /\ pc' = [pc EXCEPT ![p] = "idle"]
     /\ result' = (call[p].id :> [why |-> why, tpl |-> call[p].tpl]) @@ result
     /\ cmu' = IF cmu = p THEN None ELSE cmu
+    /\ call' = [call EXCEPT ![p] = NoCall]
 
 (***************************************************************************)
 (* Network.CreateTransaction                                               *)
@@ -148,7 +149,7 @@ Begin(p, tpl) ==
     /\ call' = [call EXCEPT ![p] = [NoCall EXCEPT !.tpl = tpl, !.id = Id(p, ncalls[p] + 1), !.addl = ResolveAddl(p, tpl)]]
     /\ pc' = [pc EXCEPT ![p] = "chkprev"]
     /\ Log([a |-> "Begin", p |-> p, tpl |-> tpl, id |-> Id(p, ncalls[p] + 1), addl |-> ResolveAddl(p, tpl)])
-    /\ UNCHANGED <<attr, disk, mem, lock, tmu, wbuf, fails, result, delivered, gossiped, rp, reproc, nreproc, n2, rej2, wire>>
+    /\ UNCHANGED <<attr, disk, mem, lock, tmu, tmuQ, wbuf, fails, result, delivered, gossiped, rp, reproc, nreproc, n2, rej2, wire>>
 
 \* additional prevs must be stored with their payload; private transactions need a node DID
 CheckPrevs(p) ==
@@ -157,10 +158,10 @@ CheckPrevs(p) ==
            known == {a \in c.addl : a \in disk.txs /\ a \in disk.pay}
            why == IF known # c.addl THEN "prev" ELSE IF TplPriv(c.tpl) /\ ~NodeDID THEN "nodedid" ELSE "ok"
        IN /\ IF why = "ok"
-             THEN pc' = [pc EXCEPT ![p] = "head"] /\ UNCHANGED <<result, cmu>>
+             THEN pc' = [pc EXCEPT ![p] = "head"] /\ UNCHANGED <<result, cmu, call>>
              ELSE RetErr(p, why)
           /\ Log([a |-> "CheckPrevs", p |-> p, res |-> why])
-    /\ UNCHANGED <<attr, disk, mem, lock, tmu, call, wbuf, ncalls, fails, delivered, gossiped, rp, reproc, nreproc, n2, rej2, wire>>
+    /\ UNCHANGED <<attr, disk, mem, lock, tmu, tmuQ, wbuf, ncalls, fails, delivered, gossiped, rp, reproc, nreproc, n2, rej2, wire>>
 
 \* state.Head, prevs = head + additional prevs, PAL encryption
 ReadHead(p) ==
@@ -172,9 +173,9 @@ ReadHead(p) ==
        IN /\ IF why = "ok"
              THEN /\ call' = [call EXCEPT ![p] = [c EXCEPT !.head = h, !.prevs = prevs, !.seen = disk.txs]]
                   /\ pc' = [pc EXCEPT ![p] = "clock"] /\ UNCHANGED <<result, cmu>>
-             ELSE RetErr(p, why) /\ UNCHANGED call
+             ELSE RetErr(p, why)
           /\ Log([a |-> "ReadHead", p |-> p, head |-> h, res |-> why])
-    /\ UNCHANGED <<attr, disk, mem, lock, tmu, wbuf, ncalls, fails, delivered, gossiped, rp, reproc, nreproc, n2, rej2, wire>>
+    /\ UNCHANGED <<attr, disk, mem, lock, tmu, tmuQ, wbuf, ncalls, fails, delivered, gossiped, rp, reproc, nreproc, n2, rej2, wire>>
 
 CalcClock(p) ==
     /\ pc[p] = "clock" /\ lock = None
@@ -183,7 +184,7 @@ CalcClock(p) ==
        IN /\ call' = [call EXCEPT ![p] = [c EXCEPT !.lc = lc]]
           /\ Log([a |-> "CalcClock", p |-> p, lc |-> lc])
     /\ pc' = [pc EXCEPT ![p] = "sign"]
-    /\ UNCHANGED <<attr, disk, mem, lock, tmu, cmu, wbuf, ncalls, fails, result, delivered, gossiped, rp, reproc, nreproc, n2, rej2, wire>>
+    /\ UNCHANGED <<attr, disk, mem, lock, tmu, tmuQ, cmu, wbuf, ncalls, fails, result, delivered, gossiped, rp, reproc, nreproc, n2, rej2, wire>>
 
 \* does the signature verify with the key the header names?  kid: the verifier resolves the key in the DID document
 \* version whose source transaction is one of the prevs
@@ -198,9 +199,9 @@ Sign(p) ==
             /\ Log([a |-> "Sign", p |-> p, res |-> "key"])
        ELSE /\ attr' = (c.id :> [prevs |-> c.prevs, lc |-> c.lc, type |-> TplType(c.tpl), priv |-> TplPriv(c.tpl),
                                  sig |-> SigFor(c.tpl, c.prevs), seen |-> c.seen]) @@ attr
-            /\ pc' = [pc EXCEPT ![p] = "verify"] /\ UNCHANGED <<result, cmu>>
+            /\ pc' = [pc EXCEPT ![p] = "verify"] /\ UNCHANGED <<result, cmu, call>>
             /\ Log([a |-> "Sign", p |-> p, res |-> "ok"])
-    /\ UNCHANGED <<disk, mem, lock, tmu, call, wbuf, ncalls, fails, delivered, gossiped, rp, reproc, nreproc, n2, rej2, wire>>
+    /\ UNCHANGED <<disk, mem, lock, tmu, tmuQ, wbuf, ncalls, fails, delivered, gossiped, rp, reproc, nreproc, n2, rej2, wire>>
 
 \* injected failure of the step the goroutine is about to take (database read error, key store error)
 Fail(p) ==
@@ -208,27 +209,30 @@ Fail(p) ==
     /\ fails' = fails + 1
     /\ RetErr(p, "fault")
     /\ Log([a |-> "Fail", p |-> p, at |-> pc[p]])
-    /\ UNCHANGED <<attr, disk, mem, lock, tmu, call, wbuf, ncalls, delivered, gossiped, rp, reproc, nreproc, n2, rej2, wire>>
+    /\ UNCHANGED <<attr, disk, mem, lock, tmu, tmuQ, wbuf, ncalls, delivered, gossiped, rp, reproc, nreproc, n2, rej2, wire>>
 
 (***************************************************************************)
 (* State.Add of the own transaction (Dag.tla: ReadVerify .. AfterCommit)   *)
 (***************************************************************************)
+\* treeMutex is handed over in arrival order (sync.Mutex wakes its first waiter; a goroutine that barges in has done a
+\* read-only step later than the waiter, which commutes with the waiter's read)
 ReadVerify(p) ==
     /\ pc[p] = "verify" /\ lock = None
     /\ LET t == call[p].id IN
        IF ValidIn(t, disk.txs)
-       THEN /\ pc' = [pc EXCEPT ![p] = "tmu"] /\ UNCHANGED <<result, cmu>>
+       THEN /\ IF tmu = None
+               THEN tmu' = p /\ pc' = [pc EXCEPT ![p] = "wlock"] /\ UNCHANGED tmuQ
+               ELSE tmuQ' = Append(tmuQ, p) /\ pc' = [pc EXCEPT ![p] = "tmu"] /\ UNCHANGED tmu
+            /\ UNCHANGED <<result, cmu, call>>
             /\ Log([a |-> "ReadVerify", p |-> p, res |-> "verified"])
-       ELSE /\ RetErr(p, "verify")
+       ELSE /\ RetErr(p, "verify") /\ UNCHANGED <<tmu, tmuQ>>
             /\ Log([a |-> "ReadVerify", p |-> p, res |-> "rejected"])
-    /\ UNCHANGED <<attr, disk, mem, lock, tmu, call, wbuf, ncalls, fails, delivered, gossiped, rp, reproc, nreproc, n2, rej2, wire>>
+    /\ UNCHANGED <<attr, disk, mem, lock, wbuf, ncalls, fails, delivered, gossiped, rp, reproc, nreproc, n2, rej2, wire>>
 
-TakeTmu(p) ==
-    /\ pc[p] = "tmu" /\ tmu = None
-    /\ tmu' = p
-    /\ pc' = [pc EXCEPT ![p] = "wlock"]
-    /\ Log([a |-> "TakeTmu", p |-> p])
-    /\ UNCHANGED <<attr, disk, mem, lock, cmu, call, wbuf, ncalls, fails, result, delivered, gossiped, rp, reproc, nreproc, n2, rej2, wire>>
+\* treeMutex.Unlock by p: the first waiter (if any) gets it
+NextHolder == IF tmuQ = <<>> THEN None ELSE Head(tmuQ)
+PcAfterUnlock(p) == [q \in Procs |-> IF q = p THEN "idle" ELSE IF q = NextHolder THEN "wlock" ELSE pc[q]]
+UnlockTrees == tmu' = NextHolder /\ tmuQ' = (IF tmuQ = <<>> THEN tmuQ ELSE Tail(tmuQ))
 
 LockWrite(p) ==
     /\ pc[p] = "wlock" /\ lock = None
@@ -247,32 +251,37 @@ LockWrite(p) ==
             /\ mem' = [lcHigh |-> IF Lc(t) > mem.lcHigh THEN Lc(t) ELSE mem.lcHigh]
             /\ pc' = [pc EXCEPT ![p] = "written"]
             /\ Log([a |-> "LockWrite", p |-> p, res |-> "written"])
-    /\ UNCHANGED <<attr, disk, tmu, cmu, call, ncalls, fails, result, delivered, gossiped, rp, reproc, nreproc, n2, rej2, wire>>
+    /\ UNCHANGED <<attr, disk, tmu, tmuQ, cmu, call, ncalls, fails, result, delivered, gossiped, rp, reproc, nreproc, n2, rej2, wire>>
 
 Commit(p) ==
     /\ pc[p] = "written"
     /\ disk' = wbuf[p] /\ lock' = None
+    /\ wbuf' = [wbuf EXCEPT ![p] = EmptyDisk]
     /\ pc' = [pc EXCEPT ![p] = "committed"]
     /\ Log([a |-> "Commit", p |-> p])
-    /\ UNCHANGED <<attr, mem, tmu, cmu, call, wbuf, ncalls, fails, result, delivered, gossiped, rp, reproc, nreproc, n2, rej2, wire>>
+    /\ UNCHANGED <<attr, mem, tmu, tmuQ, cmu, call, ncalls, fails, result, delivered, gossiped, rp, reproc, nreproc, n2, rej2, wire>>
 
 \* error of the write function, or an injected commit failure
 Rollback(p) ==
     /\ \/ pc[p] = "fnerr" /\ UNCHANGED fails
        \/ pc[p] = "written" /\ fails < MaxFail /\ fails' = fails + 1
     /\ lock' = None
+    /\ wbuf' = [wbuf EXCEPT ![p] = EmptyDisk]
     /\ pc' = [pc EXCEPT ![p] = "rolledback"]
     /\ Log([a |-> "Rollback", p |-> p, injected |-> (pc[p] = "written")])
-    /\ UNCHANGED <<attr, disk, mem, tmu, cmu, call, wbuf, ncalls, result, delivered, gossiped, rp, reproc, nreproc, n2, rej2, wire>>
+    /\ UNCHANGED <<attr, disk, mem, tmu, tmuQ, cmu, call, ncalls, result, delivered, gossiped, rp, reproc, nreproc, n2, rej2, wire>>
 
 \* OnRollback -> loadState (still under treeMutex), then Add returns the error
 OnRollback(p) ==
     /\ pc[p] = "rolledback" /\ lock = None
     /\ mem' = [lcHigh |-> disk.lcHigh]
-    /\ tmu' = None
-    /\ RetErr(p, IF Prevs(call[p].id) = {} /\ Roots(disk.txs) # {} THEN "root" ELSE "fault")
+    /\ UnlockTrees
+    /\ pc' = PcAfterUnlock(p)
+    /\ result' = (call[p].id :> [why |-> IF Prevs(call[p].id) = {} /\ Roots(disk.txs) # {} THEN "root" ELSE "fault", tpl |-> call[p].tpl]) @@ result
+    /\ cmu' = IF cmu = p THEN None ELSE cmu
+    /\ call' = [call EXCEPT ![p] = NoCall]
     /\ Log([a |-> "OnRollback", p |-> p])
-    /\ UNCHANGED <<attr, disk, lock, call, wbuf, ncalls, fails, delivered, gossiped, rp, reproc, nreproc, n2, rej2, wire>>
+    /\ UNCHANGED <<attr, disk, lock, wbuf, ncalls, fails, delivered, gossiped, rp, reproc, nreproc, n2, rej2, wire>>
 
 \* AfterCommit hooks: unlockTrees, notify(tx event), notify(payload event); every receiver answers "done", so the jobs
 \* of the persistent subscribers are finished right away (retries are the business of Dag.tla / C14); then the call returns
@@ -283,11 +292,12 @@ AfterCommit(p) ==
        /\ gossiped' = gossiped \cup {t}
        /\ disk' = [disk EXCEPT !.jobs = @ \ NewJobs(t)]
        /\ result' = (t :> [why |-> "ok", tpl |-> call[p].tpl]) @@ result
-    /\ tmu' = None
+    /\ UnlockTrees
     /\ cmu' = IF cmu = p THEN None ELSE cmu
-    /\ pc' = [pc EXCEPT ![p] = "idle"]
+    /\ call' = [call EXCEPT ![p] = NoCall]
+    /\ pc' = PcAfterUnlock(p)
     /\ Log([a |-> "AfterCommit", p |-> p])
-    /\ UNCHANGED <<attr, mem, lock, call, wbuf, ncalls, fails, rp, reproc, nreproc, n2, rej2, wire>>
+    /\ UNCHANGED <<attr, mem, lock, wbuf, ncalls, fails, rp, reproc, nreproc, n2, rej2, wire>>
 
 (***************************************************************************)
 (* Network.Reprocess(contentType)                                          *)
@@ -297,7 +307,7 @@ ReprocScan(ct) ==
     /\ nreproc' = nreproc + 1
     /\ rp' = [pc |-> "scanned", ct |-> ct, snap |-> {t \in disk.txs : attr[t].type = ct}, okAt |-> OkIds]
     /\ Log([a |-> "ReprocScan", ct |-> ct])
-    /\ UNCHANGED <<attr, disk, mem, lock, tmu, cmu, pc, call, wbuf, ncalls, fails, result, delivered, gossiped, reproc, n2, rej2, wire>>
+    /\ UNCHANGED <<attr, disk, mem, lock, tmu, tmuQ, cmu, pc, call, wbuf, ncalls, fails, result, delivered, gossiped, reproc, n2, rej2, wire>>
 
 \* ReadPayload per selected transaction + publish on REPROCESS.<ct>
 ReprocPublish ==
@@ -305,7 +315,7 @@ ReprocPublish ==
     /\ reproc' = reproc \cup {[ct |-> rp.ct, pub |-> rp.snap, okAt |-> rp.okAt]}
     /\ rp' = [rp EXCEPT !.pc = "idle"]
     /\ Log([a |-> "ReprocPublish", ct |-> rp.ct])
-    /\ UNCHANGED <<attr, disk, mem, lock, tmu, cmu, pc, call, wbuf, ncalls, fails, result, delivered, gossiped, nreproc, n2, rej2, wire>>
+    /\ UNCHANGED <<attr, disk, mem, lock, tmu, tmuQ, cmu, pc, call, wbuf, ncalls, fails, result, delivered, gossiped, nreproc, n2, rej2, wire>>
 
 (***************************************************************************)
 (* A second node is offered the produced bytes (prevs first, as v2 does)   *)
@@ -317,25 +327,25 @@ Sync(t) ==
        THEN n2' = n2 \cup {t} /\ UNCHANGED rej2
        ELSE rej2' = rej2 \cup {t} /\ UNCHANGED n2
     /\ Log([a |-> "Sync", t |-> t])
-    /\ UNCHANGED <<attr, disk, mem, lock, tmu, cmu, pc, call, wbuf, ncalls, fails, result, delivered, gossiped, rp, reproc, nreproc, wire>>
+    /\ UNCHANGED <<attr, disk, mem, lock, tmu, tmuQ, cmu, pc, call, wbuf, ncalls, fails, result, delivered, gossiped, rp, reproc, nreproc, wire>>
 
 \* transport/v2: the ref was gossiped; a peer that is not a participant asks for the transaction and its payload
 Serve(t) ==
     /\ ServeOn /\ AllReturned /\ t \in gossiped /\ t \in disk.txs /\ \A w \in wire : w.t # t
     /\ wire' = wire \cup {[t |-> t, pl |-> ~attr[t].priv]}
     /\ Log([a |-> "Serve", t |-> t])
-    /\ UNCHANGED <<attr, disk, mem, lock, tmu, cmu, pc, call, wbuf, ncalls, fails, result, delivered, gossiped, rp, reproc, nreproc, n2, rej2>>
+    /\ UNCHANGED <<attr, disk, mem, lock, tmu, tmuQ, cmu, pc, call, wbuf, ncalls, fails, result, delivered, gossiped, rp, reproc, nreproc, n2, rej2>>
 
 Next ==
     \/ \E p \in Procs, tpl \in Templates : Begin(p, tpl)
-    \/ \E p \in Procs : CheckPrevs(p) \/ ReadHead(p) \/ CalcClock(p) \/ Sign(p) \/ Fail(p) \/ ReadVerify(p) \/ TakeTmu(p)
+    \/ \E p \in Procs : CheckPrevs(p) \/ ReadHead(p) \/ CalcClock(p) \/ Sign(p) \/ Fail(p) \/ ReadVerify(p)
                          \/ LockWrite(p) \/ Commit(p) \/ Rollback(p) \/ OnRollback(p) \/ AfterCommit(p)
     \/ \E ct \in {TplType(tpl) : tpl \in Templates} : ReprocScan(ct)
     \/ ReprocPublish
     \/ \E t \in Made : Sync(t) \/ Serve(t)
 
 Spec == Init /\ [][Next]_vars
-ProcStep(p) == CheckPrevs(p) \/ ReadHead(p) \/ CalcClock(p) \/ Sign(p) \/ ReadVerify(p) \/ TakeTmu(p) \/ LockWrite(p)
+ProcStep(p) == CheckPrevs(p) \/ ReadHead(p) \/ CalcClock(p) \/ Sign(p) \/ ReadVerify(p) \/ LockWrite(p)
                \/ Commit(p) \/ OnRollback(p) \/ AfterCommit(p) \/ (pc[p] = "fnerr" /\ Rollback(p))
 FairSpec == Spec /\ \A p \in Procs : WF_vars(ProcStep(p))
                  /\ WF_vars(\E t \in Made : Sync(t)) /\ WF_vars(ReprocPublish)
